@@ -215,7 +215,7 @@ class KeyValuePairNode(ContainerNode):
         self.__hash = hash((key, value))
 
     def to_obj(self):
-        return self.key, self.value
+        return self.key.to_obj(), self.value.to_obj()
 
     def copy_from(self: C, children: Iterable[TreeNode]) -> C:
         key, value = children
